@@ -212,7 +212,10 @@ where
             o
         }
         "PokTs" => {
-            blsful::verif_hooks::set_virtual_now_ms(Some(BASE_MS));
+            // the prover's clock stands `genfrac` microseconds past the millisecond: the stamp is the truncated reading
+            let genfrac = v.get("genfrac").and_then(|x| x.as_u64()).unwrap_or(0);
+            let verfrac = v.get("verfrac").and_then(|x| x.as_u64()).unwrap_or(0);
+            blsful::verif_hooks::set_virtual_now_us(Some(BASE_MS * 1000 + genfrac));
             let gen = ProofOfKnowledgeTimestamp::<C>::generate(&msg, sig);
             let mut p = match gen {
                 Ok(p) => p,
@@ -264,7 +267,7 @@ where
             let tau = geti(v, "tau");
             // the model's largest timeout stands for u64::MAX (and one below it)
             let tau_of = |t: i64| -> Option<u64> { if t < 0 { None } else if t >= 2_000_000_000 { Some(u64::MAX) } else { Some(t as u64) } };
-            blsful::verif_hooks::set_virtual_now_ms(Some(BASE_MS + delay));
+            blsful::verif_hooks::set_virtual_now_us(Some((BASE_MS + delay) * 1000 + verfrac));
             let r = std::panic::catch_unwind(std::panic::AssertUnwindSafe(|| p.verify(pk2, &msg2, tau_of(tau))));
             // the same call through the trait-level entry point, at the same instant
             let ts2 = p.timestamp;
